@@ -47,6 +47,13 @@ impl Session {
     }
 
     fn execute_async(&self, sql: String) -> QueryRunnerResult<QueryResult> {
+        // A transaction that was aborted behind the session's back (VACUUM aborts every active one) must not run
+        // further statements: its writes would carry the id of a transaction nobody tracks any more.
+        if !self.ctx.is_active() {
+            return Err(QueryError::Runtime(RuntimeError::Other(
+                "transaction is no longer active (it was aborted)".to_string(),
+            )));
+        }
         let logger = self.logger.clone();
         // Build a temporary context for this thread
         // Cloning the handle creates an invalidated copy of itself that can fo everything but committing  or aborting.
